@@ -89,7 +89,11 @@ void h_run(Case &c) {
   Doc doc = parse_doc(src); CHECK(c, doc.ok, "harness_parse", "the harness could not parse a hwloc export");
   int nmut = 0; size_t trunc = 0; bool byteflip = false;
   for (size_t i = 0; i < c.ops.size(); i++) {
-    Draw &o = c.ops[i]; std::vector<Node *> all; collect(doc.root, all); Node *n = all[o.raw() % all.size()]; int k = o.range(0, 12); std::string what;
+    Draw &o = c.ops[i]; std::vector<Node *> all; collect(doc.root, all); Node *n = all[o.raw() % all.size()]; int k = o.range(0, 14); std::string what;
+    // objects dominate every document: one mutation in three targets the non-object elements (distances, memory attributes, CPU kinds, infos,
+    // page types, userdata, support) or their parents, whose importers have their own bounds and counters (seeded change C06)
+    { uint32_t pickv = o.raw(); if (o.chance(1, 3)) { std::vector<Node *> special; for (Node *x : all) { if (x->tag != "object" && x->tag != "topology") special.push_back(x); else for (auto &kid : x->kids) if (kid.tag != "object") { special.push_back(x); break; } } std::vector<Node *> counted; for (Node *x : special) if (x->tag.find("distances") != std::string::npos || x->tag.find("memattr") != std::string::npos || x->tag.find("cpukind") != std::string::npos) counted.push_back(x);
+        if (!counted.empty() && (pickv >> 20 & 1)) { n = counted[pickv % counted.size()]; c.cls("mut-target:counted-structure"); } else if (!special.empty()) { n = special[pickv % special.size()]; c.cls("mut-target:non-object-element"); } } }
     if (k <= 3 && !n->attrs.empty()) { auto &a = n->attrs[o.raw() % n->attrs.size()]; std::string nv = mutate_value(o, a.first, a.second); what = strf("set <%s %s=\"%s\"> to \"%s\"", n->tag.c_str(), a.first.c_str(), a.second.substr(0, 30).c_str(), nv.substr(0, 40).c_str()); a.second = nv; }
     else if (k == 4 && !n->attrs.empty()) { size_t ai = o.raw() % n->attrs.size(); what = strf("drop attribute %s of <%s>", n->attrs[ai].first.c_str(), n->tag.c_str()); n->attrs.erase(n->attrs.begin() + ai); }
     else if (k == 5 && !n->attrs.empty()) { auto a = n->attrs[o.raw() % n->attrs.size()]; a.second = mutate_value(o, a.first, a.second); n->attrs.push_back(a); what = strf("duplicate attribute %s of <%s>", a.first.c_str(), n->tag.c_str()); }
@@ -97,6 +101,8 @@ void h_run(Case &c) {
     else if (k == 7 && !n->kids.empty()) { size_t ki = o.raw() % n->kids.size(); Node cp = n->kids[ki]; n->kids.insert(n->kids.begin() + (o.raw() % (n->kids.size() + 1)), cp); what = strf("duplicate <%s> child of <%s>", cp.tag.c_str(), n->tag.c_str()); }
     else if (k == 8 && n->kids.size() >= 2) { size_t a = o.raw() % n->kids.size(), b = o.raw() % n->kids.size(); std::swap(n->kids[a], n->kids[b]); what = strf("swap children %zu,%zu of <%s>", a, b, n->tag.c_str()); }
     else if (k == 9 && !n->kids.empty()) { size_t ki = o.raw() % n->kids.size(); Node moved = n->kids[ki]; n->kids.erase(n->kids.begin() + ki); std::vector<Node *> all2; collect(doc.root, all2); Node *dst = all2[o.raw() % all2.size()]; dst->kids.push_back(moved); what = strf("move <%s> under <%s>", moved.tag.c_str(), dst->tag.c_str()); }
+    else if (k == 13 && !n->kids.empty()) { size_t ki = o.raw() % n->kids.size(); Node cp = n->kids[ki]; size_t at = ki + 1; while (at < n->kids.size() && n->kids[at].tag == cp.tag) at++; n->kids.insert(n->kids.begin() + at, cp); what = strf("surplus <%s> after the last one of <%s> (more items than announced)", cp.tag.c_str(), n->tag.c_str()); }
+    else if (k == 14) { bool done = false; for (auto &a : n->attrs) if (!done && (a.first == "nbobjs" || a.first == "length" || a.first == "nr" || a.first.find("count") != std::string::npos)) { unsigned long v = strtoul(a.second.c_str(), NULL, 10); a.second = std::to_string(o.chance(1, 2) ? (v > 0 ? v - 1 : 0) : v / 2); what = strf("shrink %s of <%s> (fewer items announced than present)", a.first.c_str(), n->tag.c_str()); done = true; } }
     else if (k == 10) { for (auto &a : doc.root.attrs) if (a.first == "version") a.second = mutate_value(o, "version", a.second); what = "change topology version"; }
     else if (k == 11) { trunc = 1 + o.raw(); what = "truncate"; }
     else if (k == 12) { byteflip = true; what = "flip a byte"; }
